@@ -189,7 +189,24 @@ class World(BaseWorld):
     def gen_cons(self, rng):
         c = self.cfg
         r = rng.random()
-        if r < c.get("p_skewed", 0.2):
+        if rng.random() < c.get("p_bigcoef", 0.0):
+            # an equality (no slack needed) with large odd coefficients: the penalty's coefficients are ~2^32, with fractional
+            # parts 1/2 and 1/4 after boolean<->spin conversion, all still exact
+            rel = "eq"
+            terms = self.gen_poly_terms(rng, rng.randint(1, 3), min(2, c["cons_deg"]), rng.randint(1, 3),
+                                        [65537, -65537, 40001, 1, -1], 0.5)
+            self.probe("constraint_with_large_odd_coefficients")
+        elif rng.random() < c.get("p_wide", 0.0):
+            # an inequality over two variables with weights in the ten thousands: ~16 log-trick slack bits, penalty
+            # coefficients up to ~2^30 (knapsack-like constraints of real users; exact truth table of 2^18..2^19 rows)
+            vs = rng.sample(self.labels, 2)
+            rel = rng.choice(["le", "ge", "lt", "gt"])
+            terms = [[enc_key((vs[0],)), rng.choice([20000, 13000, -20000, 17001, 30011])],
+                     [enc_key((vs[1],)), rng.choice([13000, -17001, 20000, 9999])], [[], rng.choice([-1000, 0, 999, -12345])]]
+            lam = rng.choice([1, 1, 3, 2])
+            self.probe("wide_inequality_generated")
+            return {"op": "cons", "rel": rel, "P": terms, "lam": lam, "log_trick": True, "bounds": None, "wide": True}
+        elif r < c.get("p_skewed", 0.2):
             rel, terms = self.gen_skewed(rng)
         elif r < c.get("p_skewed", 0.2) + c["p_special"]:
             rel, terms = self.gen_special_any(rng)
@@ -342,8 +359,11 @@ class World(BaseWorld):
         mag = max(abs(elo), abs(ehi), ehi - elo)      # unary slack: one ancilla per unit of min_val / range
         if mag > 8 and rel != "eq":
             kw["log_trick"] = True
-        if span_hi - span_lo > 64 or mag > 200:
+        wide = bool(op.get("wide")) and kw.get("log_trick") and mag <= (1 << 17) and len(P.variables()) <= 2 and self.prop != "C08"
+        if (span_hi - span_lo > 64 or mag > 200) and not wide:
             return "skipped"
+        if wide:
+            self.fault("wide_slack_register")
         if self.n_vars_total() > (11 if not self.cfg.get("deep") else 60):
             return "skipped-large"
         if self.cfg.get("deep"):
@@ -386,7 +406,9 @@ class World(BaseWorld):
         info = {"new_ancillas": set()}
         if lam:
             try:
-                info = check_penalty(H_before, H_after, P, rel, lam, self.issued, warned_unsat)
+                info = check_penalty(H_before, H_after, P, rel, lam, self.issued, warned_unsat, max_bits=20 if wide else 14)
+                if wide and not info.get("skipped"):
+                    self.probe("wide_slack_register_judged")
             except Violation as v:
                 if v.oracle in self.active:
                     v.detail = where + ": " + v.detail
@@ -837,7 +859,7 @@ def gen_cfg(rng, prop, tier):
         "lams": rng.choice([[1], [0.5, 1, 1.5, 2, 3, 4], [2, 4], [0.5]]),
         "p_special": rng.choice([0.0, 0.3, 0.6]), "p_near_miss": rng.choice([0.0, 0.4, 0.7]), "p_skewed": rng.choice([0.0, 0.2, 0.5]), "p_model_arg": rng.choice([0.0, 0.3, 0.6]),
         "max_cons": rng.choice([1, 2, 3, 5]),
-        "w_logic": 0, "w_obj": rng.choice([0, 0.5, 1.5]), "w_hist": rng.choice([0, 0.5, 1.5]), "w_obs": rng.choice([0, 0.5]), "w_remap": rng.choice([0, 0, 0.5, 1.5]), "forms_first": rng.random() < 0.4, "big_offset": rng.choice([0, 0, 0, 0, 0, 0, 2 ** 36, -(2 ** 36), 2 ** 34 + 1]),
+        "w_logic": 0, "w_obj": rng.choice([0, 0.5, 1.5]), "w_hist": rng.choice([0, 0.5, 1.5]), "w_obs": rng.choice([0, 0.5]), "w_remap": rng.choice([0, 0, 0.5, 1.5]), "forms_first": rng.random() < 0.4, "p_bigcoef": rng.choice([0.0, 0.0, 0.15, 0.4]), "p_wide": rng.choice([0.0, 0.0, 0.0, 0.0, 0.012]), "big_offset": rng.choice([0, 0, 0, 0, 0, 0, 2 ** 36, -(2 ** 36), 2 ** 34 + 1]),
         "n_ops": rng.choice([2, 4, 7, 12]),
         "half_bounds": tier == "thorough" or rng.random() < 0.3,
     }
